@@ -9,9 +9,7 @@ import (
 
 // Contracts for the deductive verification in /verif (build tag "verif"). This file adds declarations only.
 
-// GetInnerMessage walks the relay chain and modifies nothing (the default for pointer-receiver methods would allow
-// writes to the receiver).
-//@ contract (*RelayMessage).GetInnerMessage
+// GetInnerMessage: see verif_relay.go
 
 // ---------- option list decoding ----------
 // FromBytesWithParser is verified once per parser that the library passes to it (contract variants key[parser]).
